@@ -256,6 +256,10 @@ class Zone:
         return True
 
 
+_VPAY = re.compile(r"(?:len\(|pos\()?(L\d+(?:\.[\w*]+)*?)\.v(\d+)\.")
+_VARIANT_IDX = {"Ok": 0, "Err": 1, "None": 0, "Some": 1, "Continue": 0, "Break": 1}
+
+
 def _rooted(term, prefix):
     inner = term
     m = re.match(r"(len|pos)\((.*)\)$", term)
@@ -299,6 +303,29 @@ class State:
         for k, v in self.tags.items():
             if k in o.tags:
                 s.tags[k] = v | o.tags[k]
+        # facts about the payload of one variant of X (terms under `X.vK.`) survive a join with a state in which X is known
+        # to be a different variant: there the payload does not exist, so the fact holds vacuously (`Ok(b)` on one path and
+        # `Err(e)` on the other, then `?` on the joined value)
+        for a_, b_ in ((self, o), (o, self)):
+            if not a_.tags or not b_.tags:
+                continue
+            for (t1, t2), c in a_.z.e.items():
+                keep = False
+                for t in (t1, t2):
+                    m = _VPAY.search(t)
+                    if not m:
+                        continue
+                    x_, vi = m.group(1), int(m.group(2))
+                    tg = b_.tags.get(x_)
+                    if tg and all(_VARIANT_IDX.get(n_, -1) != vi and n_ in _VARIANT_IDX for n_ in tg) and x_ in a_.tags:
+                        keep = True
+                if keep and s.z.e.get((t1, t2), INF) > c:
+                    # only if the other term is not a fact of the other state's own (it must be shared or payload-local)
+                    other_ok = all(_VPAY.search(t) or t == "0" or (b_.z.dist(t, "0") == a_.z.dist(t, "0") and b_.z.dist("0", t) == a_.z.dist("0", t)) for t in (t1, t2))
+                    if other_ok:
+                        s.z.e[(t1, t2)] = c
+                        s.z._adj = None
+                        s.z._dc = {}
         for k, v in self.refs.items():
             if o.refs.get(k) == v:
                 s.refs[k] = v
@@ -644,6 +671,12 @@ class Interp:
                         continue
                     visits[tgt] += 1
                     new = old.widen(s2) if (visits[tgt] > 2 and tgt in self.wpoints) or visits[tgt] > 12 else old.join(s2)
+                    if visits[tgt] > 25 and not new.z.bottom and not old.z.bottom:
+                        # safety valve against oscillation between equivalent closed forms: from here on the edge set of
+                        # this point can only shrink (an edge survives if the old state had it and the new one implies it)
+                        new.z.e = {k_: c_ for k_, c_ in old.z.e.items() if s2.z.dist(k_[0], k_[1]) <= c_}
+                        new.z._adj = None
+                        new.z._dc = {}
                     if not old.leq(new) or not new.leq(old):
                         IN[tgt] = new
                         if tgt not in work:
